@@ -40,7 +40,7 @@ REPO_SRC = os.environ.get("VERIF_REPO_SRC", "/repo/oxidize-pdf-core/src")
 RULES = {
     "D1": "dropped: attributes, doc comments, visibility qualifiers, `const` on fn",
     "D2": "dropped: tracing/log/println macros and debug_assert (no effect on contract state)",
-    "R1": "`for &x in E {` -> `for x__r in E.iter() { let x = *x__r;`",
+    "R1": "`for &x in E {` -> `for x__r in E.iter() { let x = *x__r;`; `for (&a, &b) in &M {` -> `for (a__r, b__r) in M.iter() { let a = *a__r; let b = *b__r;`",
     "R2": "`for (i, x) in E.iter().enumerate() {` -> index while loop",
     "R3": "`for (i, b) in X.iter_mut().enumerate() { *b .. }` / `for b in X.iter_mut()` -> index loop with X[i]",
     "R4": "`for i in (a..b).rev() {` -> descending while loop",
@@ -944,7 +944,22 @@ def build_item(cur, log):
                 if toks[b1].text == "&" and toks[b2].kind == "ident":
                     v = toks[b2].text
                     ed.replace(toks[b1].start, toks[b2].end, v + "__r")
-                    ed.insert(toks[lo_].end, f" let {v} = *{v}__r;")
+                    lets = f" let {v} = *{v}__r;"
+                    # second component by reference as well: `for (&a, &b) in &M {` -> `for (a__r, b__r) in M.iter() { let a = *a__r; let b = *b__r;`
+                    c0 = next_code(toks, b2)
+                    if toks[c0].text == ",":
+                        c1 = next_code(toks, c0); c2 = next_code(toks, c1); c3 = next_code(toks, c2); c4 = next_code(toks, c3)
+                        if toks[c1].text == "&" and toks[c2].kind == "ident" and toks[c3].text == ")" and toks[c4].text == "in":
+                            w = toks[c2].text
+                            ed.replace(toks[c1].start, toks[c2].end, w + "__r")
+                            lets += f" let {w} = *{w}__r;"
+                            last = prev_code(toks, lo_)
+                            expr = text[toks[c4].end:toks[last].end].strip()
+                            amp = next_code(toks, c4)
+                            if toks[amp].text == "&" and re.fullmatch(r"&[\w\.]+", expr):
+                                ed.replace(toks[amp].start, toks[amp].end, "")
+                                ed.insert(toks[last].end, ".iter()")
+                    ed.insert(toks[lo_].end, lets)
                     log.append(("R1", where, text[toks[lk].start:toks[lo_].end]))
                 continue
             if toks[a1].text == "&" and toks[a2].text == "(":
